@@ -1,5 +1,5 @@
 (* Extraction of the executable models: ExtrOcamlBasic only; Z/positive stay Coq's datatypes. *)
 From Coq Require Import Extraction ExtrOcamlBasic ZArith.
-From PV Require Import Model.Dispatch.
+From PV Require Import Model.DispatchC15.
 Extraction Language OCaml.
-Extraction "Extract/model.ml" dispatch Z.add Z.mul Z.opp Z.div_eucl Z.eqb Z.ltb.
+Extraction "Extract/C15/model.ml" DispatchC15.dispatch Z.add Z.mul Z.opp Z.div_eucl Z.eqb Z.ltb.
